@@ -39,6 +39,19 @@ def _takes_ascii(f):
     return func
 
 
+def _to_int(field, width):
+    """
+    Convert a fixed-width numeric field to an integer.
+
+    ``int()`` alone also accepts signs, surrounding whitespace, underscores
+    and fields shorter than expected, none of which are valid in ISO-8601.
+    """
+    if len(field) != width or not field.isdigit():
+        raise ValueError('Invalid numeric field in ISO string: '
+                         '{!r}'.format(field))
+    return int(field)
+
+
 class isoparser(object):
     def __init__(self, sep=None):
         """
@@ -217,7 +230,7 @@ class isoparser(object):
             raise ValueError('ISO string too short')
 
         # Year
-        components[0] = int(dt_str[0:4])
+        components[0] = _to_int(dt_str[0:4], 4)
         pos = 4
         if pos >= len_str:
             return components, pos
@@ -230,7 +243,7 @@ class isoparser(object):
         if len_str - pos < 2:
             raise ValueError('Invalid common month')
 
-        components[1] = int(dt_str[pos:pos + 2])
+        components[1] = _to_int(dt_str[pos:pos + 2], 2)
         pos += 2
 
         if pos >= len_str:
@@ -247,7 +260,7 @@ class isoparser(object):
         # Day
         if len_str - pos < 2:
             raise ValueError('Invalid common day')
-        components[2] = int(dt_str[pos:pos + 2])
+        components[2] = _to_int(dt_str[pos:pos + 2], 2)
         return components, pos + 2
 
     def _parse_isodate_uncommon(self, dt_str):
@@ -255,7 +268,7 @@ class isoparser(object):
             raise ValueError('ISO string too short')
 
         # All ISO formats start with the year
-        year = int(dt_str[0:4])
+        year = _to_int(dt_str[0:4], 4)
 
         has_sep = dt_str[4:5] == self._DATE_SEP
 
@@ -263,7 +276,7 @@ class isoparser(object):
         if dt_str[pos:pos + 1] == b'W':
             # YYYY-?Www-?D?
             pos += 1
-            weekno = int(dt_str[pos:pos + 2])
+            weekno = _to_int(dt_str[pos:pos + 2], 2)
             pos += 2
 
             dayno = 1
@@ -273,7 +286,7 @@ class isoparser(object):
 
                 pos += has_sep
 
-                dayno = int(dt_str[pos:pos + 1])
+                dayno = _to_int(dt_str[pos:pos + 1], 1)
                 pos += 1
 
             base_date = self._calculate_weekdate(year, weekno, dayno)
@@ -282,7 +295,7 @@ class isoparser(object):
             if len(dt_str) - pos < 3:
                 raise ValueError('Invalid ordinal day')
 
-            ordinal_day = int(dt_str[pos:pos + 3])
+            ordinal_day = _to_int(dt_str[pos:pos + 3], 3)
             pos += 3
 
             if ordinal_day < 1 or ordinal_day > (365 + calendar.isleap(year)):
@@ -357,7 +370,7 @@ class isoparser(object):
 
             if comp < 3:
                 # Hour, minute, second
-                components[comp] = int(timestr[pos:pos + 2])
+                components[comp] = _to_int(timestr[pos:pos + 2], 2)
                 pos += 2
 
             if comp == 3:
@@ -394,11 +407,12 @@ class isoparser(object):
         else:
             raise ValueError('Time zone offset requires sign')
 
-        hours = int(tzstr[1:3])
+        hours = _to_int(tzstr[1:3], 2)
         if len(tzstr) == 3:
             minutes = 0
         else:
-            minutes = int(tzstr[(4 if tzstr[3:4] == self._TIME_SEP else 3):])
+            minutes = _to_int(
+                tzstr[(4 if tzstr[3:4] == self._TIME_SEP else 3):], 2)
 
         if zero_as_utc and hours == 0 and minutes == 0:
             return tz.UTC
